@@ -52,15 +52,27 @@ def gen(rng, tier):
         rng.shuffle(vis)
         frames.append(np.array(vis, dtype=float).reshape(len(vis), ndim))
     sr = Fraction(rng.choice([4, 6, 8, 8, 10, 12]))
+    if ndim >= 2 and rng.random() < 0.25:
+        # per-axis ranges, powers of two: dividing the coordinates by them is exact, so the reduced ellipsoids are too
+        sr = tuple(Fraction(rng.choice([4, 8, 16])) for _ in range(ndim))
     step = rng.choice(STEPS)
     stop_rel = rng.choice(STOPS)
     return dict(frames=frames, sr=sr, memory=rng.choice([0, 0, 1, 2]), ndim=ndim, max_size=rng.choice([2, 3, 3, 4, 5]),
                 strategy=rng.choice(['recursive', 'nonrecursive', 'numba', 'hybrid', 'hybrid', 'auto']), step=step, stop_rel=stop_rel)
 
 
+def is_aniso(sr):
+    return isinstance(sr, tuple) and len(set(sr)) > 1
+
+
+def scalar_sr(sr):
+    return Fraction(sr[0]) if isinstance(sr, tuple) else Fraction(sr)
+
+
 def degenerate(c):
     """a pair whose squared distance is within 1e-9 (relative) of some reduced range^2 without being equal: float sqrt could flip it"""
-    r2 = c['sr'] ** 2
+    aniso = is_aniso(c['sr'])
+    r2 = Fraction(1) if aniso else scalar_sr(c['sr']) ** 2     # per-axis ranges: distances are measured in units of the ranges
     ranges = []
     k = 0
     while k < 60:
@@ -73,7 +85,10 @@ def degenerate(c):
         prev = [p for u in range(max(0, t - 1 - c['memory']), t) for p in fr[u]]
         for q in fr[t]:
             for p in prev:
-                d2 = Fraction(int(sum((a - b) ** 2 for a, b in zip(p, q))))
+                if aniso:
+                    d2 = sum((Fraction(float(a) - float(b)) / r) ** 2 for a, b, r in zip(p, q, c['sr']))
+                else:
+                    d2 = Fraction(int(sum((a - b) ** 2 for a, b in zip(p, q))))
                 for rr in ranges:
                     if d2 != rr and abs(d2 - rr) < rr * Fraction(1, 10 ** 9):
                         return True
@@ -116,7 +131,9 @@ class record_ranges:
 
 def ladder_fault(c, ranges, exact=True):
     """every reduced range must be search_range * adaptive_step^n for some n >= 1 whose predecessor is still above adaptive_stop"""
-    sr, step, stop = Fraction(c['sr']), Fraction(c['step']), Fraction(c['sr']) * Fraction(c['stop_rel'])
+    # with per-axis ranges the code works in coordinates divided by the ranges: search_range 1, adaptive_stop/min(range)
+    sr = Fraction(1) if is_aniso(c['sr']) else scalar_sr(c['sr'])
+    step, stop = Fraction(c['step']), sr * Fraction(c['stop_rel'])
     for r in ranges:
         ok, cur, n = False, sr, 0
         while n < 400 and cur > stop:
@@ -131,7 +148,7 @@ def ladder_fault(c, ranges, exact=True):
 
 
 def run_impl(c, ranges=None):
-    stop = float(c['sr'] * c['stop_rel'])
+    stop = float((min(c['sr']) if isinstance(c['sr'], tuple) else c['sr']) * c['stop_rel'])   # a tuple of equal ranges is treated by the code as that one range
     with record_ranges(ranges if ranges is not None else []):
         return linkgen.run_link_iter(c['frames'], c['sr'], memory=c['memory'], link_strategy=c['strategy'], max_size=c['max_size'],
                                      adaptive=(stop, float(c['step'])))
@@ -171,7 +188,7 @@ def run(chk):
             chk.violation('adaptive link_iter: reduced range off the ladder', why, dict(kind='adaptive', code=20, case=jsonable(c, out), ranges=ranges))
             continue
         terms.append(term(c, out)); metas.append((c, out))
-        chk.tally('step=%s' % c['step']); chk.tally('limit=%d' % c['max_size'])
+        chk.tally('step=%s' % c['step']); chk.tally('limit=%d' % c['max_size']); chk.tally('per-axis ranges' if is_aniso(c['sr']) else 'one range')
         chk.tally('raised' if (out and out[-1] is None) else 'returned')
     res = common.coq_eval_lists(chk.work, IMPORTS, FUNC, terms)
     # how many were actually adaptive (some group oversize)? ask the plain monitor: code 5 there means a group exceeded the limit
@@ -190,7 +207,7 @@ def run(chk):
         c = gen(chk.rng, chk.tier)
         c['step'] = chk.rng.choice([Fraction(19, 20), Fraction(9, 10), Fraction(4, 5), Fraction(7, 10)])
         uexp = chk.rng.choice([0, 0, 10, -12])
-        c['sr'] = c['sr'] * Fraction(2) ** uexp
+        c['sr'] = tuple(r * Fraction(2) ** uexp for r in c['sr']) if isinstance(c['sr'], tuple) else c['sr'] * Fraction(2) ** uexp
         c['frames'] = [f * 2.0 ** uexp for f in c['frames']]
         if linkgen.max_inrange(c['frames'], c['sr'], c['memory']) > 8:
             continue
@@ -216,7 +233,7 @@ def replay(chk, path):
     cj = json.load(open(path))['replay']['case']
     frames = [np.array(f, dtype=float).reshape(len(f), -1) for f in cj['frames']]
     ndim = max([f.shape[1] for f in frames if f.size] or [1])
-    c = dict(frames=[f.reshape(len(f), ndim) for f in frames], sr=Fraction(cj['search_range']), memory=cj['memory'], ndim=ndim, max_size=cj['max_size'],
+    c = dict(frames=[f.reshape(len(f), ndim) for f in frames], sr=(tuple(Fraction(x) for x in cj['search_range']) if isinstance(cj['search_range'], list) else Fraction(cj['search_range'])), memory=cj['memory'], ndim=ndim, max_size=cj['max_size'],
              strategy=cj['link_strategy'], step=Fraction(cj['adaptive_step']), stop_rel=Fraction(cj['adaptive_stop_rel']))
     ranges = []
     out = run_impl(c, ranges)
